@@ -14,6 +14,7 @@ def run(prog, rep, tier):
     apply(rep, "N2", "infix operators are the documented ?(let..) tree", r_lex.n2(prog), 1)
     import r_tables
     apply(rep, "U1", "the simplifier's erase-remove drops the whole removed tail", r_tables.u1(prog), 1)
+    apply(rep, "Y2", "every %( ... %) splice of a literal is scanned from the same initial state as the directive forms", r_lex.y2(prog), 2)
     s1 = r_scope.s1(prog)
     apply(rep, "S1", "ALT/OR/sub-expression contexts are scoped uniformly", (s1[0], s1[1]), 10)
     maybe_mutants("C15", rep, tier)
